@@ -198,17 +198,35 @@ def run_history(seed):
                         metas.insert(at, ('unprepared',))
             # ---- statement
             lbp.order = None
+            # the flag of the statement that is EXECUTED decides; flags of related objects (the PreparedStatement behind a bound
+            # statement, the statements inside a batch) are drawn independently, in both directions
+            other_flag = rng.random() < 0.5
+            flag_how = 'own'
             if skind == 'prepared':
                 ps = session.prepare(uid_query(uid))
                 env.world.settle(advance=False)
-                st = ps.bind(())
+                flag_how = rng.choice(['prepared-flag-before-bind-then-own-set', 'prepared-flag-after-bind', 'inherited'])
+                if flag_how == 'inherited':
+                    other_flag = idem
+                    ps.is_idempotent = idem
+                    st = ps.bind(())
+                elif flag_how == 'prepared-flag-before-bind-then-own-set':
+                    ps.is_idempotent = other_flag
+                    st = ps.bind(())
+                    st.is_idempotent = idem
+                else:
+                    ps.is_idempotent = idem
+                    st = ps.bind(())
+                    ps.is_idempotent = other_flag
                 st.consistency_level = init_cl
             elif skind == 'batch':
                 st = BatchStatement(consistency_level=init_cl)
-                st.add(SimpleStatement(uid_query(uid)))
+                st.add(SimpleStatement(uid_query(uid), is_idempotent=other_flag))
+                st.is_idempotent = idem
             else:
-                st = SimpleStatement(uid_query(uid), consistency_level=init_cl)
-            st.is_idempotent = idem
+                st = SimpleStatement(uid_query(uid), consistency_level=init_cl, is_idempotent=idem)
+            if st.is_idempotent != idem:
+                raise RuntimeError("harness: statement flag %r, wanted %r" % (st.is_idempotent, idem))
             plan.set(uid, list(actions))
             lbp.order = list(order)
             m_seen, m_log = len(plan.seen), len(pol.log)
@@ -238,6 +256,7 @@ def run_history(seed):
                 info = dict(seed=seed, request=r, proto=proto, nodes=n, order=order, dead_before=sorted(dead), statement=skind, idempotent=idem,
                             init_cl=init_cl, errors=kinds, final=final, speculative_phase=spec, spec_attempts=attempts,
                             unprepared_round_trips=sum(1 for m in metas if m[0] == 'unprepared'),
+                            related_object_flag=other_flag if skind in ('prepared', 'batch') else None, flag_set=flag_how,
                             decisions=[(C.DECISION_NAMES.get(l['decision'][0]), l['decision'][1]) for l in log],
                             node_trace=seen, predicted_trace=ref['sends'], predicted_outcome=repr(ref['outcome'])[:120],
                             outcome=[(o[0], repr(o[3])[:160]) for o in outs])
@@ -474,6 +493,8 @@ def run(ctx):
                 ctx.count("decisions_" + d[0])
             if q['speculative_phase']:
                 ctx.count("speculative_phases_idempotent" if q['idempotent'] else "speculative_phases_non_idempotent")
+                if q.get('related_object_flag') is not None and q['related_object_flag'] != q['idempotent']:
+                    ctx.count("speculative_phases_where_related_object_flag_differs_" + ("statement_idempotent" if q['idempotent'] else "statement_not_idempotent"))
             if q.get('concurrent_errors'):
                 ctx.count("statements_with_two_errors_judged_back_to_back")
             if q.get('unprepared_round_trips') and q['decisions']:
@@ -493,4 +514,6 @@ def run(ctx):
                           "speculative_phases_non_idempotent": 20, "speculative_phases_idempotent": 20,
                           "decisions_RETRY": 50, "decisions_RETRY_NEXT_HOST": 50, "decisions_RETHROW": 20, "decisions_IGNORE": 20,
                           "statements_with_connection_loss": 30, "statements_with_two_errors_judged_back_to_back": 20,
-                          "statements_with_reprepare_round_trip_and_judged_errors": 20}
+                          "statements_with_reprepare_round_trip_and_judged_errors": 20,
+                          "speculative_phases_where_related_object_flag_differs_statement_not_idempotent": 10,
+                          "speculative_phases_where_related_object_flag_differs_statement_idempotent": 10}
